@@ -278,6 +278,32 @@ def run(ctx: Ctx) -> Result:
                 res.oracle_failures.append(OracleFailure(what=f"apply_symetry_on_elast_data, call {rep + 1} with the same settings dictionary: " + what,
                                                          input={"check": "elastdata-shared", "system": system, "calls": rep + 1, "supplied": list(S), "tensor": T.tolist()},
                                                          observed=obs, expected=exp, site=f"c08:elastdata-shared:{system}"))
+    # integer-typed tables: every supplied column holds integer literals (int64 in pandas).  Supplied values stay what they are and the
+    # generated partners equal them exactly — the filled table is the invariant tensor whatever the column type
+    n_int = 0
+    dep_sys = [s_ for s_ in fc.SYSTEMS if len(fc.invariant_basis(s_)["nonzero"]) > fc.EXPECTED_DIM[s_]]
+    for k in range(4 if ctx.thorough() else 2):
+        system = dep_sys[(ctx.seed + 1 + 2 * k) % len(dep_sys)]
+        info = fc.invariant_basis(system)
+        nrows = int(rng.integers(2, 8))
+        Ti = None
+        for _ in range(20):
+            coef = 4.0 * rng.integers(10, 250, size=(nrows, info["k"])) + rng.integers(0, 2, size=(nrows, info["k"]))
+            Tc = coef @ info["B"].T
+            mins = fc.minimal_sufficient_subsets(system)
+            S = list(mins[int(rng.integers(0, len(mins)))])
+            if numpy.allclose(Tc[:, S], numpy.round(Tc[:, S])): Ti = Tc; break
+        if Ti is None: continue
+        cols = [fc.SYMS[i] for i in S]; vals = [[float(round(x)) for x in Ti[:, i]] for i in S]
+        out = fc.run_impl(cols, vals, system, int_cols=cols)
+        res.evaluations += 1; n_int += 1
+        fails = oracle_fill(system, cols, vals, Ti, out)
+        if not fails: res.traces_validated += 1
+        for what, obs, exp in fails[:2]:
+            res.oracle_failures.append(OracleFailure(what="integer-typed supplied columns: " + what,
+                                                     input={"check": "int-columns", "system": system, "supplied": S, "tensor": Ti.tolist()},
+                                                     observed=obs, expected=exp, site=f"c08:int-columns:{system}"))
+    res.distribution["integer_typed_tables"] = n_int
     # volumes whose mappings list the same components in DIFFERENT orders, and explicit zero columns for symmetry-forbidden components
     # (the filled volumes must hold exactly the invariant tensor's non-vanishing components, addressed by name)
     n_named = 0
@@ -332,6 +358,12 @@ def search(ctx: Ctx, res: Result):
 def replay(ctx: Ctx, payload):
     T = numpy.array(payload["tensor"], dtype=float)
     system = payload["system"]
+    if payload.get("check") == "int-columns":
+        T = numpy.array(payload["tensor"], dtype=float); S = list(payload["supplied"])
+        cols = [fc.SYMS[i] for i in S]; vals = [[float(round(x)) for x in T[:, i]] for i in S]
+        out = fc.run_impl(cols, vals, system, int_cols=cols)
+        return [OracleFailure(what="integer-typed supplied columns: " + w, input=payload, observed=o, expected=e, site=f"c08:int-columns:{system}")
+                for w, o, e in oracle_fill(system, cols, vals, T, out)[:2]]
     if payload.get("check") == "elastdata-named":
         T = numpy.array(payload["tensor"], dtype=float); sup = list(payload["supplied"])
         out = run_elastdata(system, T, sup, key_orders=payload["orders"])
